@@ -1336,6 +1336,10 @@ func (st *Runtime) evalBaseExpressionGroup(node Node) reflect.Value {
 				node.errorf("%v", err)
 			}
 			if !field.IsValid() {
+				if m, _ := indirect(resolved); m.Kind() == reflect.Map && i == len(node.Ident)-1 {
+					// an absent key yields nil, as in x.m.absent and .m["absent"]
+					return reflect.Value{}
+				}
 				node.errorf("there is no field or method '%s' in %s (.%s)", node.Ident[i], getTypeString(resolved), strings.Join(node.Ident, "."))
 			}
 			resolved = field
